@@ -318,7 +318,7 @@ func (r *Run) Violate(v Violation) {
 	r.viols = append(r.viols, v)
 	r.mu.Unlock()
 	fmt.Printf("VIOLATION property=%s replay=%s\n", r.ID, path)
-	fmt.Printf("  check=%s case=%s/%q observed=%v expected=%v %s\n", v.Check, v.Case.Kind, clip(v.Case.Input, 200), clipAny(v.Observed), clipAny(v.Expected), strings.ReplaceAll(clip(v.Note, 300), "\n", " | "))
+	fmt.Printf("  check=%s case=%s/%q observed=%v expected=%v %s\n", v.Check, v.Case.Kind, clip(v.Case.Input, 200), clipAny(v.Observed), clipAny(v.Expected), clipAny(v.Note))
 }
 
 // Violations returns the number of violations so far.
@@ -330,7 +330,15 @@ func clip(s string, n int) string {
 	}
 	return s
 }
-func clipAny(v interface{}) string { return strings.ReplaceAll(clip(fmt.Sprint(v), 300), "\n", " | ") }
+func clipAny(v interface{}) string {
+	s := strings.ReplaceAll(clip(fmt.Sprint(v), 300), "\n", " | ")
+	return strings.Map(func(r rune) rune {
+		if r < 0x20 || r == 0x7f || r == 0xfffd {
+			return '.'
+		}
+		return r
+	}, s)
+}
 
 // CleanOut removes old replay files of this property.
 func (r *Run) CleanOut() {
